@@ -9,7 +9,7 @@ Local Open Scope N_scope.
    leave_scoped section holds the entry (it removes members first and fixes the index in
    its final step) ---------- *)
 Definition in_LL (thr : list pc) (k : key) : Prop :=
-  exists t todo, nth_error thr t = Some (LL k todo).
+  exists t acts todo, nth_error thr t = Some (LL k acts todo).
 
 Record pinv (c : cstate) : Prop := mkPinv {
   p1a : forall s g, mem_of (c_pg c) (s, g) <> [] -> In g (index_of (c_pg c) s);
@@ -39,13 +39,13 @@ Qed.
 (* a thread that is not inside (or stays inside) a leave section keeps every in_LL fact *)
 Lemma inLL_upd thr t p p' k :
   nth_error thr t = Some p ->
-  (forall todo, p = LL k todo -> exists todo', p' = LL k todo') ->
+  (forall acts todo, p = LL k acts todo -> exists acts' todo', p' = LL k acts' todo') ->
   in_LL thr k -> in_LL (upd_nth thr t p') k.
 Proof.
-  intros N H [t' [todo E]]. destruct (Nat.eq_dec t' t) as [->|Ne].
-  - rewrite N in E. inversion E; subst. destruct (H todo eq_refl) as [todo' ->].
-    exists t, todo'. eapply nth_upd_same; eauto.
-  - exists t', todo. rewrite nth_upd_other; auto.
+  intros N H [t' [acts [todo E]]]. destruct (Nat.eq_dec t' t) as [->|Ne].
+  - rewrite N in E. inversion E; subst. destruct (H acts todo eq_refl) as [acts' [todo' ->]].
+    exists t, acts', todo'. eapply nth_upd_same; eauto.
+  - exists t', acts, todo. rewrite nth_upd_other; auto.
 Qed.
 
 Lemma mem_create g k k' : mem_of (pg_create g k) k' = mem_of g k'.
@@ -75,9 +75,9 @@ Proof.
   assert (FR : forall p' g' held',
              (forall k, mem_of g' k = mem_of (c_pg c) k) ->
              (forall s, index_of g' s = index_of (c_pg c) s) ->
-             (forall k todo, p = LL k todo -> exists todo', p' = LL k todo') ->
+             (forall k acts todo, p = LL k acts todo -> exists acts' todo', p' = LL k acts' todo') ->
              pinv (mkC g' held' (upd_nth (c_thr c) t p') (c_x c))).
-  { intros p' g' held' M X L. apply (pinv_frame c); auto. intros k. apply (inLL_upd _ _ p); auto. intros td E. apply (L k td E). }
+  { intros p' g' held' M X L. apply (pinv_frame c); auto. intros k. apply (inLL_upd _ _ p); auto. intros ac td E. apply (L k ac td E). }
   destruct p; simpl.
   - destruct todo as [|a todo]; [destruct (null kept)|]; simpl; apply FR; auto; discriminate.
   - destruct (free c k); simpl; apply FR; auto; try discriminate. intros. apply mem_create.
@@ -93,7 +93,7 @@ Proof.
                           (index_add (p_index g) (fst k) (snd k))) k'
                  = if keqb k k' then mem' else mem_of g k').
     { intros k'. destruct (null joined); unfold mem_of, gs_of; simpl; unfold kupd; destruct (keqb k k'); auto. }
-    assert (LLp : forall k', in_LL (c_thr c) k' -> in_LL (upd_nth (c_thr c) t (JS k joined stopped)) k').
+    assert (LLp : forall k', in_LL (c_thr c) k' -> in_LL (upd_nth (c_thr c) t (JS k joined (g_lis (gs_of g k)) stopped)) k').
     { intros k'. apply (inLL_upd _ _ _ _ _ N). discriminate. }
     destruct k as [ks kg]. simpl fst; simpl snd.
     destruct (null joined) eqn:EJ.
@@ -117,8 +117,8 @@ Proof.
   - (* LL *) destruct todo as [|a todo]; simpl.
     + set (g := c_pg c). set (gs := gs_of g k). destruct k as [ks kg]. simpl fst; simpl snd.
       assert (Hgs : mem_of g (ks, kg) = g_mem gs) by reflexivity.
-      assert (NoLL : forall k', k' <> (ks, kg) -> in_LL (c_thr c) k' -> in_LL (upd_nth (c_thr c) t Done) k').
-      { intros k' Hk. apply (inLL_upd _ _ _ _ _ N). intros todo E. inversion E; subst. congruence. }
+      assert (NoLL : forall k', k' <> (ks, kg) -> in_LL (c_thr c) k' -> in_LL (upd_nth (c_thr c) t (LN (ks, kg) acts (g_lis gs))) k').
+      { intros k' Hk. apply (inLL_upd _ _ _ _ _ N). intros ac todo E. inversion E; subst. congruence. }
       destruct (null (g_mem gs)) eqn:EN.
       * apply null_nil in EN.
         assert (HM : forall k', mem_of (pg_map (pg_index g (index_rem (p_index g) ks kg))
@@ -146,12 +146,12 @@ Proof.
                         (nupd (p_rels g) a (option_map (rel_rem_mem k) (p_rels g a)))) k'
                    = if keqb k k' then nrem a (mem_of g k) else mem_of g k').
       { intros k'. unfold mem_of, gs_of; simpl; unfold kupd; destruct (keqb k k'); auto. }
-      assert (LLk : forall k', in_LL (c_thr c) k' -> in_LL (upd_nth (c_thr c) t (LL k todo)) k').
-      { intros k'. apply (inLL_upd _ _ _ _ _ N). intros td E. inversion E; subst. eauto. }
+      assert (LLk : forall k', in_LL (c_thr c) k' -> in_LL (upd_nth (c_thr c) t (LL k acts todo)) k').
+      { intros k'. apply (inLL_upd _ _ _ _ _ N). intros ac td E. inversion E; subst. eauto. }
       constructor; simpl; intros s g0; rewrite HM.
       * kcase k (s, g0); [|apply (p1a _ P)]. intros H. apply (p1a _ P). intros E. apply H. fold g in E. rewrite E. reflexivity.
       * intros H. kcase k (s, g0).
-        -- right. exists t, todo. eapply nth_upd_same; eauto.
+        -- right. exists t, acts, todo. eapply nth_upd_same; eauto.
         -- destruct (p1b _ P s g0 H) as [X|X]; auto.
   - apply FR; auto; discriminate.
   - destruct (free c (DEFAULT, g)); simpl; [destruct (p_dead (c_pg c) a); simpl|]; apply FR; auto; try discriminate.
@@ -170,6 +170,12 @@ Proof.
     rewrite ogs_norm. simpl. unfold gs_of. rewrite EG. auto.
   - apply FR; auto; discriminate.
   - destruct (p_world (c_pg c) s); apply FR; auto; discriminate.
+  - apply FR; auto; discriminate.
+  - apply FR; auto; discriminate.
+  - apply FR; auto; discriminate.
+  - apply FR; auto; discriminate.
+  - apply FR; auto; discriminate.
+  - apply FR; auto; discriminate.
   - apply FR; auto; discriminate.
 Qed.
 
@@ -219,6 +225,9 @@ Proof.
       * intros E. apply Hn. split; auto. rewrite HE, E. reflexivity.
       * apply nmem_nIn in EM. rewrite nrem_notin; auto.
   - apply FR; auto.
+  - destruct evs as [|[k lis] rest]; simpl; apply FR; auto.
+  - apply FR; auto.
+  - apply FR; auto.
   - apply FR; auto.
 Qed.
 
@@ -259,7 +268,7 @@ Qed.
 
 Lemma inLL_held c k : cinv c -> in_LL (c_thr c) k -> c_held c k <> None.
 Proof.
-  intros I [t [todo E]]. rewrite (k_held _ I _ _ k E); [discriminate|simpl; auto].
+  intros I [t [acts [todo E]]]. rewrite (k_held _ I _ _ k E); [discriminate|simpl; auto].
 Qed.
 
 Theorem index_agree_unheld calls ls s g :
@@ -277,15 +286,24 @@ Definition obliged (p : pc) (a : N) : Prop :=
   match p with
   | JL _ _ _ _ _ stopped => In a stopped
   | JCommit _ _ _ stopped => In a stopped
-  | JS _ _ stopped => In a stopped
+  | JS _ _ _ stopped => In a stopped
   | M1 _ a' => a' = a | M3 _ a' => a' = a | M4 _ a' => a' = a | M5 a' => a' = a
   | S1 _ a' => a' = a | S3 _ a' => a' = a | S4 _ a' => a' = a
   | _ => False
   end.
 
+(* the exit machine has not yet executed its own remove_empty_actor_relations *)
+Definition pre_rm (x : xpc) : Prop :=
+  match x with XN _ => False | XNW1 _ _ => False | XNW2 _ _ => False | XDone => False | _ => True end.
+
 Definition rinv (c : cstate) : Prop :=
   forall a, p_rels (c_pg c) a <> None ->
-    c_x c a <> XDone \/ exists t p, nth_error (c_thr c) t = Some p /\ obliged p a.
+    pre_rm (c_x c a) \/ exists t p, nth_error (c_thr c) t = Some p /\ obliged p a.
+
+Lemma pre_rm_dec x : pre_rm x \/ ~ pre_rm x.
+Proof. destruct x; simpl; tauto. Qed.
+Lemma post_rm_late x : ~ pre_rm x -> ~ pre_take_m x /\ ~ pre_take_g x.
+Proof. destruct x; simpl; tauto. Qed.
 
 Lemma nil_of_notin {A} (l : list A) : (forall x, ~ In x l) -> l = [].
 Proof. destruct l; auto. intros H. exfalso. apply (H a). left; auto. Qed.
@@ -301,13 +319,15 @@ Proof.
   - intros k H. apply M. apply (k_rmem _ I _ _ H).
 Qed.
 
-Lemma remove_empty_none c a : cinv c -> c_x c a = XDone \/ c_x c a = XRm ->
+Lemma remove_empty_none c a : cinv c -> ~ pre_rm (c_x c a) \/ (exists evs, c_x c a = XRm evs) ->
   rels_remove_empty (p_rels (c_pg c)) a a = None.
 Proof.
   intros I H. unfold rels_remove_empty. destruct (p_rels (c_pg c) a) as [r|] eqn:R; auto.
   assert (E : rel_is_empty r = true).
   { replace r with (rel_of (c_pg c) a) by (unfold rel_of; rewrite R; auto).
-    apply rel_empty_late; auto; destruct H as [-> | ->]; simpl; tauto. }
+    destruct H as [H|[evs H]].
+    - apply post_rm_late in H. apply rel_empty_late; tauto.
+    - apply rel_empty_late; auto; rewrite H; simpl; tauto. }
   rewrite E. apply nupd_eq.
 Qed.
 Lemma remove_empty_other rs a b : a <> b -> rels_remove_empty rs a b = rs b.
@@ -318,13 +338,11 @@ Qed.
 Lemma create_other rs a b : a <> b -> rels_create rs a b = rs b.
 Proof. intros H. unfold rels_create. destruct (rs a); auto. apply nupd_neq; auto. Qed.
 
-Lemma xdone_dec (x : xpc) : x = XDone \/ x <> XDone.
-Proof. destruct x; auto; right; discriminate. Qed.
 
 Lemma rinv_frame_thr c t p p' g' held' :
   rinv c -> nth_error (c_thr c) t = Some p ->
-  (forall b, p_rels g' b <> None -> p_rels (c_pg c) b <> None \/ obliged p' b \/ c_x c b <> XDone) ->
-  (forall b, obliged p b -> obliged p' b \/ c_x c b <> XDone \/ p_rels g' b = None) ->
+  (forall b, p_rels g' b <> None -> p_rels (c_pg c) b <> None \/ obliged p' b \/ pre_rm (c_x c b)) ->
+  (forall b, obliged p b -> obliged p' b \/ pre_rm (c_x c b) \/ p_rels g' b = None) ->
   rinv (mkC g' held' (upd_nth (c_thr c) t p') (c_x c)).
 Proof.
   intros R N C1 C2 b Hb. simpl in *.
@@ -344,7 +362,7 @@ Lemma rinv_tstep c t p : cinv c -> rinv c -> nth_error (c_thr c) t = Some p ->
 Proof.
   intros I R N.
   assert (SAME : forall p' g' held', p_rels g' = p_rels (c_pg c) ->
-            (forall b, obliged p b -> obliged p' b \/ c_x c b <> XDone \/ p_rels g' b = None) ->
+            (forall b, obliged p b -> obliged p' b \/ pre_rm (c_x c b) \/ p_rels g' b = None) ->
             rinv (mkC g' held' (upd_nth (c_thr c) t p') (c_x c))).
   { intros p' g' held' E O. apply (rinv_frame_thr c t p); auto. intros b Hb. rewrite E in Hb. auto. }
   destruct p; simpl.
@@ -356,16 +374,16 @@ Proof.
     + (* rejected under the lock: entry created; queued for removal if empty *)
       apply (rinv_frame_thr c t _ _ _ _ R N); simpl.
       * intros b Hb. destruct (N.eq_dec a b) as [->|Ne].
-        -- destruct (xdone_dec (c_x c b)) as [X|X]; auto. right. left.
+        -- destruct (pre_rm_dec (c_x c b)) as [X|X]; auto. right. left.
            assert (E : rel_is_empty (rel_get (rels_create (p_rels (c_pg c)) b) b) = true).
            { unfold rel_get. change (rel_is_empty (orel (rels_create (p_rels (c_pg c)) b b)) = true).
-             rewrite orel_create. apply rel_empty_late; auto; rewrite X; simpl; tauto. }
+             rewrite orel_create. apply post_rm_late in X. apply rel_empty_late; tauto. }
            rewrite E. left; auto.
         -- left. rewrite create_other in Hb; auto.
       * intros b Hb. left. destruct (rel_is_empty _); simpl; auto.
     + apply (rinv_frame_thr c t _ _ _ _ R N); simpl; auto.
       intros b Hb. destruct (N.eq_dec a b) as [->|Ne].
-      * right. right. rewrite (pc_dead_alive _ _ I D). discriminate.
+      * right. right. rewrite (pc_dead_alive _ _ I D). simpl. auto.
       * left. unfold nupd in Hb. apply N.eqb_neq in Ne. rewrite Ne in Hb.
         apply N.eqb_neq in Ne. rewrite create_other in Hb; auto.
   - (* JCommit *) apply (rinv_frame_thr c t _ _ _ _ R N); simpl; auto.
@@ -374,11 +392,11 @@ Proof.
     + destruct (null joined); simpl; apply SAME; auto; simpl; tauto.
     + apply (rinv_frame_thr c t _ _ _ _ R N); simpl.
       * intros b Hb. destruct (N.eq_dec a b) as [->|Ne].
-        -- destruct (xdone_dec (c_x c b)) as [X|X]; auto.
+        -- destruct (pre_rm_dec (c_x c b)) as [X|X]; auto.
            rewrite remove_empty_none in Hb; auto; try congruence.
         -- left. rewrite remove_empty_other in Hb; auto.
       * intros b [<-|Hb]; auto.
-        destruct (xdone_dec (c_x c a)) as [X|X]; auto. right. right. apply remove_empty_none; auto.
+        destruct (pre_rm_dec (c_x c a)) as [X|X]; auto. right. right. apply remove_empty_none; auto.
   - destruct (free c k); simpl; apply SAME; auto; simpl; tauto.
   - destruct (free c k); simpl; [destruct (p_map (c_pg c) k)|]; simpl; apply SAME; auto; simpl; tauto.
   - (* LL *) destruct todo as [|a todo]; simpl.
@@ -396,13 +414,13 @@ Proof.
     left. unfold nupd in Hb. apply N.eqb_neq in Ne. rewrite Ne in Hb.
     apply N.eqb_neq in Ne. rewrite create_other in Hb; auto.
   - (* M3 *) destruct (p_dead (c_pg c) a) eqn:D; simpl; apply SAME; auto; simpl; auto.
-    intros b <-. right. left. rewrite (pc_dead_alive _ _ I D). discriminate.
+    intros b <-. right. left. rewrite (pc_dead_alive _ _ I D). simpl. auto.
   - destruct (free c (DEFAULT, g)); simpl; apply SAME; auto; simpl; auto.
   - (* M5 *) apply (rinv_frame_thr c t _ _ _ _ R N); simpl.
     + intros b Hb. destruct (N.eq_dec a b) as [->|Ne].
-      * destruct (xdone_dec (c_x c b)) as [X|X]; auto. rewrite remove_empty_none in Hb; auto; try congruence.
+      * destruct (pre_rm_dec (c_x c b)) as [X|X]; auto. rewrite remove_empty_none in Hb; auto; try congruence.
       * left. rewrite remove_empty_other in Hb; auto.
-    + intros b <-. destruct (xdone_dec (c_x c a)) as [X|X]; auto. right. right. apply remove_empty_none; auto.
+    + intros b <-. destruct (pre_rm_dec (c_x c a)) as [X|X]; auto. right. right. apply remove_empty_none; auto.
   - (* S0 *) apply (rinv_frame_thr c t _ _ _ _ R N); simpl; try tauto.
     intros b Hb. destruct (N.eq_dec a b) as [->|Ne]; auto. left. rewrite create_other in Hb; auto.
   - (* S1 *) destruct (p_dead (c_pg c) a) eqn:D; simpl; [apply SAME; auto; simpl; auto|].
@@ -411,7 +429,7 @@ Proof.
     left. unfold nupd in Hb. apply N.eqb_neq in Ne. rewrite Ne in Hb.
     apply N.eqb_neq in Ne. rewrite create_other in Hb; auto.
   - (* S3 *) destruct (p_dead (c_pg c) a) eqn:D; simpl; apply SAME; auto; simpl; auto.
-    intros b <-. right. left. rewrite (pc_dead_alive _ _ I D). discriminate.
+    intros b <-. right. left. rewrite (pc_dead_alive _ _ I D). simpl. auto.
   - apply SAME; auto; simpl; auto.
   - apply SAME; auto; simpl; tauto.
   - (* D1 *) destruct (free c (DEFAULT, g)); simpl; [|apply SAME; auto; simpl; tauto].
@@ -430,37 +448,50 @@ Proof.
     destruct (p_world (c_pg c) s); apply (rinv_frame_thr c t _ _ _ _ R N); simpl; try tauto;
       intros b Hb; left; apply X; exact Hb.
   - apply SAME; auto; simpl; tauto.
+  - apply SAME; auto; simpl; tauto.
+  - apply SAME; auto; simpl; tauto.
+  - apply SAME; auto; simpl; tauto.
+  - apply SAME; auto; simpl; tauto.
+  - apply SAME; auto; simpl; tauto.
+  - apply SAME; auto; simpl; tauto.
 Qed.
 
 Lemma rinv_xstep c a : cinv c -> rinv c ->
   rinv (let (x', c') := xstep a (c_x c a) c in mkC (c_pg c') (c_held c') (c_thr c') (nupd (c_x c') a x')).
 Proof.
   intros I R.
-  (* entries of other actors are untouched; for a itself either the machine is not done or the entry is gone *)
+  (* entries of other actors are untouched; for a itself either its own removal is still
+     ahead or the entry is gone *)
   assert (FR : forall g' held' x',
             (forall b, a <> b -> p_rels g' b <> None -> p_rels (c_pg c) b <> None) ->
-            (x' <> XDone \/ p_rels g' a = None) ->
+            (pre_rm x' \/ p_rels g' a = None) ->
             rinv (mkC g' held' (c_thr c) (nupd (c_x c) a x'))).
   { intros g' held' x' O A b Hb. simpl in *. unfold nupd. destruct (N.eqb_spec a b) as [->|Ne].
     - destruct A as [A|A]; auto; try contradiction.
     - apply R. apply O; auto. }
+  (* after the removal: the state of pg is not touched by the notification steps *)
+  assert (LATE : forall x', ~ pre_rm (c_x c a) -> rinv (mkC (c_pg c) (c_held c) (c_thr c) (nupd (c_x c) a x'))).
+  { intros x' NP b Hb. simpl in *. destruct (R b Hb) as [Y|Y]; auto.
+    unfold nupd. destruct (N.eqb_spec a b) as [->|Ne]; auto. contradiction. }
   destruct (c_x c a) eqn:XA; simpl.
-  - apply FR; simpl; auto. left; discriminate.
-  - destruct (p_rels (c_pg c) a) eqn:E; simpl; apply FR; simpl; auto; try (left; discriminate).
+  - apply FR; simpl; auto.
+  - destruct (p_rels (c_pg c) a) eqn:E; simpl; apply FR; simpl; auto.
     intros b Ne Hb. unfold nupd in Hb. apply N.eqb_neq in Ne. rewrite Ne in Hb. auto.
-  - destruct gmons as [|k gm]; simpl; [apply FR; simpl; auto; left; discriminate|].
-    destruct (free c k); simpl; apply FR; simpl; auto; left; discriminate.
-  - destruct wmons as [|s wm]; simpl; apply FR; simpl; auto; left; discriminate.
-  - destruct (p_rels (c_pg c) a) eqn:E; simpl; apply FR; simpl; auto; try (left; discriminate).
+  - destruct gmons as [|k gm]; simpl; [apply FR; simpl; auto|].
+    destruct (free c k); simpl; apply FR; simpl; auto.
+  - destruct wmons as [|s wm]; simpl; apply FR; simpl; auto.
+  - destruct (p_rels (c_pg c) a) eqn:E; simpl; apply FR; simpl; auto.
     intros b Ne Hb. unfold nupd in Hb. apply N.eqb_neq in Ne. rewrite Ne in Hb. auto.
-  - destruct todo as [|k todo]; simpl; [apply FR; simpl; auto; left; discriminate|].
-    destruct (free c k); simpl; apply FR; simpl; auto; try (left; discriminate).
+  - destruct todo as [|k todo]; simpl; [apply FR; simpl; auto|].
+    destruct (free c k); simpl; apply FR; simpl; auto.
     intros b Ne Hb. unfold leave_one in Hb. destruct (emptied a (p_map (c_pg c) k)); exact Hb.
   - apply FR; simpl.
     + intros b Ne Hb. rewrite remove_empty_other in Hb; auto.
-    + right. apply remove_empty_none; auto.
-  - intros b Hb. simpl in *. destruct (R b Hb) as [Y|Y]; auto. left.
-    unfold nupd. destruct (N.eqb_spec a b) as [->|Ne]; auto; try congruence.
+    + right. apply remove_empty_none; auto. right. eauto.
+  - destruct evs as [|[k lis] rest]; simpl; apply LATE; try rewrite XA; simpl; tauto.
+  - apply LATE; try rewrite XA; simpl; tauto.
+  - apply LATE; try rewrite XA; simpl; tauto.
+  - apply LATE; try rewrite XA; simpl; tauto.
 Qed.
 
 Theorem rinv_cstep c l : cinv c -> rinv c -> rinv (cstep c l).
@@ -494,7 +525,7 @@ Theorem no_leak_conc calls ls a :
 Proof.
   intros c XD Q. destruct (p_rels (c_pg c) a) eqn:E; auto.
   assert (X : p_rels (c_pg c) a <> None) by congruence.
-  destruct (rinv_crun calls ls a X) as [Y|[t [p [N O]]]]; [fold c in Y; congruence|].
+  destruct (rinv_crun calls ls a X) as [Y|[t [p [N O]]]]; [fold c in Y; rewrite XD in Y; destruct Y|].
   exfalso. apply (Q t p N O).
 Qed.
 
